@@ -328,6 +328,26 @@ func emitYAML(bb *bytes.Buffer, v any, step string, cur string, comments *commen
 
 func emitYAMLValue(bb *bytes.Buffer, v any, step string, cur string, comments *commenter) {
 	if s, ok := scalarText(v); ok {
+		// YAML 1.1 spellings of the same value (styled renderings only): yes/on/True for true,
+		// hexadecimal for integers
+		if comments != nil && comments.on {
+			switch x := v.(type) {
+			case bool:
+				if x {
+					s = Pick(comments.r, []string{"true", "yes", "on", "True", "TRUE", "Yes"})
+				} else {
+					s = Pick(comments.r, []string{"false", "no", "off", "False", "FALSE", "No"})
+				}
+			case int:
+				if x > 9 && comments.r.Chance(1, 3) {
+					s = fmt.Sprintf("0x%X", x)
+				}
+			case int64:
+				if x > 9 && comments.r.Chance(1, 3) {
+					s = fmt.Sprintf("0x%X", x)
+				}
+			}
+		}
 		bb.WriteString(" " + s + "\n")
 		return
 	}
